@@ -93,3 +93,66 @@ func LoadVodRep(assetDir, id, kind, initURI, mediaPat string, startNr int) (*Rep
 	}
 	return rt, nil
 }
+
+// LoadVodRepTime parses a $Time$-addressed VoD representation whose segment start times are given
+// (taken by the caller from the VoD MPD's SegmentTimeline).
+func LoadVodRepTime(assetDir, id, kind, initURI, mediaPat string, times []int64) (*RepTruth, error) {
+	rt := &RepTruth{ID: id, Kind: kind, InitURI: initURI, MediaPat: mediaPat}
+	data, err := os.ReadFile(filepath.Join(assetDir, initURI))
+	if err != nil {
+		return nil, err
+	}
+	init, err := ParseInit(data)
+	if err != nil {
+		return nil, fmt.Errorf("init %s: %w", id, err)
+	}
+	rt.Init = init
+	rt.TS = int64(init.Moov.Trak.Mdia.Mdhd.Timescale)
+	rt.Trex = init.Moov.Mvex.Trex
+	var prevEnd int64 = -1
+	common := int64(-1)
+	for _, t := range times {
+		p := filepath.Join(assetDir, strings.ReplaceAll(mediaPat, "$Time$", fmt.Sprint(t)))
+		data, err := os.ReadFile(p)
+		if err != nil {
+			return nil, err
+		}
+		m, err := ParseMedia(data, rt.Trex)
+		if err != nil {
+			return nil, fmt.Errorf("%s: %w", p, err)
+		}
+		start := int64(m.Frags[0].Tfdt)
+		if start != t {
+			return nil, fmt.Errorf("%s: decode time %d differs from the MPD's %d", p, start, t)
+		}
+		if prevEnd < 0 {
+			rt.Vod0 = start
+		} else if start != prevEnd {
+			return nil, fmt.Errorf("%s: VoD not contiguous", p)
+		}
+		prevEnd = start + int64(m.TotalDur)
+		rt.Dur = append(rt.Dur, int64(m.TotalDur))
+		rt.PayDig = append(rt.PayDig, m.PayDig)
+		var digs []string
+		for _, f := range m.Frags {
+			digs = append(digs, f.Digests...)
+			for _, d := range f.Durs {
+				switch {
+				case common == -1:
+					common = int64(d)
+				case common != int64(d):
+					common = 0
+				}
+			}
+		}
+		rt.SampleDigs = append(rt.SampleDigs, digs)
+	}
+	rt.N = len(rt.Dur)
+	for _, d := range rt.Dur {
+		rt.L += d
+	}
+	if common > 0 {
+		rt.SampleDur = common
+	}
+	return rt, nil
+}
